@@ -52,6 +52,23 @@ def one_pair(res, name, dom, rows, rows2, params, seed, tag):
                       {'request': canon}, key=f'{name}:output')
 
 
+def directed_adagrid_threshold(res, seed):
+    """a one-way cell whose true count sits just above the public plausibility cut-off threshold*sigma_1:
+    removing one of its records must not change which later releases happen (the cut-off is applied to noisy answers)"""
+    import math
+    import mechs
+    C = mechs.load('cdp2adp')
+    dom = [['a', 4], ['b', 2], ['c', 3]]
+    eps, delta, thr = 3.0, 1e-6, 1.0
+    rho = C.cdp_rho(eps, delta)
+    sigma1 = math.sqrt(0.5 / (rho / 3)) * math.sqrt(len(dom))
+    cut = thr * sigma1
+    k = int(math.floor(cut)) + 1
+    rows = [[3, i % 2, i % 3] for i in range(k)] + [[i % 3, i % 2, (i // 2) % 3] for i in range(40 * k)]
+    rows2 = rows[1:]
+    one_pair(res, 'adagrid', dom, rows, rows2, {'epsilon': eps, 'delta': delta, 'threshold': thr, 'targets': [], 'split_strategy': None}, seed, 'directed')
+
+
 def run(res, drv, tier, seed):
     r = rng(seed, 'C06')
     per = 3 if tier == 'quick' else 25
@@ -64,6 +81,7 @@ def run(res, drv, tier, seed):
             directed = (k % 2 == 1)
             rows2 = c05.neighbour(r, dom, rows, bounded, directed)
             one_pair(res, name, dom, rows, rows2, params, seed * 1000 + k, 'directed' if directed else 'random')
+    directed_adagrid_threshold(res, seed)
 
 
 def search(res, tier, seed, broken):
